@@ -299,7 +299,7 @@ def c36(t):
         "the real text of struct Settings, Settings::merge, or, or_defaults and default_data_dir is copied into the lift crate and executed from its MIR; the statement-level specification (vlib/e2.py settings_spec_*) is: per field the first of flags > environment > config file that supplies it, else the built-in default; switches OR; hidden lists union",
         "inside merge, Settings::from_options / Settings::from_env / serde_yaml::from_reader are stubs returning the scenario's flag / environment / config-file Settings; the real from_options (over the real struct Options, clap attributes removed) and the real from_env (over a BTreeMap with literal ORD_ keys and abstract string values) are decided by their own obligations: every flag / variable lands in the setting of its own name; how clap turns argv into Options and YAML parsing are NOT covered",
         "File::open succeeds (unreadable or malformed config files are outside the claim); dirs::home_dir / dirs::data_dir / sysinfo total_memory return arbitrary values; Path::exists is an arbitrary Bool; Chain::{join_with_data_dir, default_rpc_port, from_str} are transcribed from src/chain.rs into the shim (digest of chain.rs recorded); inscription-id list parsing is abstract (either a set of two arbitrary ids or an error)",
-        "which sources supply which field is a concrete pattern per obligation (uniform, 8 per-field-varying, 6 without an explicit config; thorough adds 40 random patterns); supplied values are solver variables, so equal and conflicting values are both covered; paths and strings are u32 tokens with uninterpreted join/exists",
+        "which sources supply which field is a concrete pattern per obligation (uniform, 8 per-field-varying, 6 without an explicit config; thorough adds 300 random merge patterns and 24 random or patterns); supplied values are solver variables, so equal and conflicting values are both covered; paths and strings are u32 tokens with uninterpreted join/exists",
         "built-in defaults checked: bitcoin_rpc_limit 12, commit_interval 5000, max_savepoints 2, savepoint_interval 10, chain mainnet, bitcoin_data_dir ~/.bitcoin (linux), cookie file <chain dir of bitcoin data dir>/.cookie, data dir <chain dir of (given or default data dir)>, index <data dir>/index.redb, RPC URL 127.0.0.1:<chain's port>, index cache = total memory / 4; config and config_dir are consumed (None)",
         "if struct Settings gains or loses a field the check reports inconclusive (the specification table must be revisited) rather than guessing",
         "a counterexample is replayed natively by the test vreplay_settings (real function text; sources planted through the shim placeholders; temp directory with or without ord.yaml)"]
